@@ -121,7 +121,7 @@ fn main() {
     let prop = Property {
         id: "C09",
         level: "exploration",
-        rule: "typestate automaton per writer instance (online in the monitoring writer, offline over its log) on: small sessions x every drop point (receiver dropped after each packet) x 9 writer scripts (open failing, write failing at call 1/2/last/n, builder Abort / ObjectAlreadyReceived, md5 off) x {in order, reversed, shuffled, lossy}; hand-written FDTs without FEC-OTI attributes (writer created inside push) for empty and non-empty objects; malformed histories (header substitutions, payload faults) with failing writers; a case is one (session, script, order) with all its drop points, non-trivial when at least one writer was created; distinct = (shape, script, order); monitor states = distinct abstract writer traces; fdt_without_oti announces Content-Length equal / larger / smaller / absent (absent together with Content-MD5), content-encoded cases with content that really compresses; content-encoded shapes of three source blocks of unequal size (3+2+2, 4+3+3, 7+6+6 symbols) are always part of small_x_script_x_drop; fdt_without_oti variant 6: every packet announces a source block of 0 symbols (cache replay and current packet both fail)",
+        rule: "typestate automaton per writer instance (online in the monitoring writer, offline over its log) on: small sessions x every drop point (receiver dropped after each packet) x 9 writer scripts (open failing, write failing at call 1/2/last/n, builder Abort / ObjectAlreadyReceived, md5 off) x {in order, reversed, shuffled, lossy}; hand-written FDTs without FEC-OTI attributes (writer created inside push) for empty and non-empty objects; malformed histories (header substitutions, payload faults) with failing writers; a case is one (session, script, order) with all its drop points, non-trivial when at least one writer was created; distinct = (shape, script, order); monitor states = distinct abstract writer traces; fdt_without_oti announces Content-Length equal / larger / smaller / absent (absent together with Content-MD5), content-encoded cases with content that really compresses; content-encoded shapes of three source blocks of unequal size (3+2+2, 4+3+3, 7+6+6 symbols) are always part of small_x_script_x_drop; fdt_without_oti variants 6-8: every packet / only the cached packets / only the packet that carries the OTI announce a source block of 0 symbols (FEC 129: the cache replay and / or the current packet fail inside one push)",
         assumptions: vec![
             "several writers for one TOI are legal (re-download after error, receive-once off): the automaton is per writer instance".into(),
             "a writer whose open() failed is not 'opened': at most one error call is allowed, none is required".into(),
@@ -224,7 +224,7 @@ fn main() {
         // ---- hand-written FDT without FEC-OTI attributes: the writer is created inside push()
         let fecs: [u8; 4] = [0, 5, 129, 6];
         let lens: [usize; 4] = [0, 1, 16, 40];
-        let n2 = fecs.len() * lens.len() * n_scripts * 7 * 4;
+        let n2 = fecs.len() * lens.len() * n_scripts * 9 * 4;
         gens.push(Gen::new("fdt_without_oti", n2, move |ctx, i| {
             let fec = fecs[i % fecs.len()];
             let len = lens[(i / fecs.len()) % lens.len()];
@@ -232,9 +232,9 @@ fn main() {
             // 0 fdt first, 1 object first, 2 fdt in the middle; 3-5: single-symbol blocks and EXT_FTI on SOME packets only
             // (the others wait in the cache until a packet with EXT_FTI opens the writer inside push()):
             // 3 reverse order, FTI on the last packet pushed; 4 every packet first without then with FTI; 5 in order, FTI on the last
-            let variant = (i / (fecs.len() * lens.len() * n_scripts)) % 7;
+            let variant = (i / (fecs.len() * lens.len() * n_scripts)) % 9;
             // announced Content-Length vs real length (null encoding): equal, larger, smaller
-            let cl_mode = (i / (fecs.len() * lens.len() * n_scripts * 7)) % 4;
+            let cl_mode = (i / (fecs.len() * lens.len() * n_scripts * 9)) % 4;
             let cl_delta: i64 = [0i64, 5, -1, 0][cl_mode];
             // fourth mode: the File element carries neither Content-Length nor Content-MD5 (both are optional): the
             // content is whatever the Transfer-Length bytes decode to
@@ -287,9 +287,11 @@ fn main() {
                     // variant 6 (hostile, matters for FEC 129 whose payload id announces the block length): every packet
                     // announces a source block of 0 symbols - the packets replayed from the cache fail, and so does the
                     // packet that carried the OTI
+                    // variants 7 / 8: only the cached packets / only the packet that carries the OTI announce it
                     let sbl = if variant == 6 { 0u16 } else { k as u16 };
-                    objp.push(wire::encode(&l, &[wire::ext_fti(&fti)], &wire::payload_id(fec, sbn as u32, esi as u32, sbl, 8), &sym));
-                    objp_nofti.push(wire::encode(&l, &[], &wire::payload_id(fec, sbn as u32, esi as u32, sbl, 8), &sym));
+                    let (sbl_fti, sbl_nofti) = match variant { 7 => (k as u16, 0u16), 8 => (0u16, k as u16), _ => (sbl, sbl) };
+                    objp.push(wire::encode(&l, &[wire::ext_fti(&fti)], &wire::payload_id(fec, sbn as u32, esi as u32, sbl_fti, 8), &sym));
+                    objp_nofti.push(wire::encode(&l, &[], &wire::payload_id(fec, sbn as u32, esi as u32, sbl_nofti, 8), &sym));
                 }
             }
             let mut seq: Vec<Vec<u8>> = vec![];
